@@ -19,7 +19,7 @@
 From Coq Require Import String List NArith Bool.
 Import ListNotations.
 Require Import VParse LicModel LicAuto LicSpec LicLex LicCode LicIdem LicGrammar LicTable LicTop LicFinal SpdxTable.
-Require Import Show LicIds LicLayout LicTree LicFinalB.
+Require Import Show LicIds LicLayout LicTree LicFinalB LicSpecX RunLic.
 Open Scope N_scope.
 Notation "'txt' s" := (asc s%string) (at level 0, s at level 0, only parsing).
 
@@ -188,6 +188,17 @@ Print Assumptions C19_same_tree.
 Theorem C19_idempotent_limit s o : canonicalize_license_expression s = Limit o -> canonicalize_license_expression o = Limit o.
 Proof. exact (finalb_idempotent_limit s o). Qed.
 Print Assumptions C19_idempotent_limit.
+
+(* 13. the observation command l.spec, which the correspondence run compares with the harness-side Python reading of the property,
+       prints the specification of theorem 1 (run under another name for the sake of the extraction) *)
+Theorem C19_spec_observation_is_the_specification s :
+  obs_spec s = match spec_canon licenses exceptions s with
+               | None => txt "N"
+               | Some o => txt "S|" ++ (if nests_deeper_than 200 (spdx_tokens s) then txt "2"
+                                        else if nests_deeper_than 100 (spdx_tokens s) then txt "1" else txt "0") ++ txt "|" ++ o
+               end.
+Proof. unfold obs_spec. now rewrite spec_canon_x_eq. Qed.
+Print Assumptions C19_spec_observation_is_the_specification.
 
 (* the one deviation of the code from the property, as a fact about the faithful model *)
 (* 201 nested parentheses around MIT: an SPDX expression, rejected *)
